@@ -177,7 +177,7 @@ def r11_5(prog: Program, rep: Report):
     # forwardref() derives the name from the type and strips the module prefix
     fr = prog.function("typelib.py.refs.forwardref")
     ok = False
-    for _, r in P.returns(P.paths_of(prog, fr)):
+    for _, r in P.returns(P.spaths(prog, fr)):
         if T.is_call_to(r, "typing.ForwardRef"):
             kw = dict(r[3])
             ok = kw.get("module") is not None and T.is_call_to(kw["module"], "typelib.py.refs._resolve_module_name")
@@ -214,7 +214,7 @@ def r11_7(prog: Program, rep: Report, rule="R11.7"):
     why_name = why_mod = ""
     # the module qualifier is removed from the reference name as a *prefix* only
     anywhere = []
-    for p in P.paths_of(prog, fr):
+    for p in P.spaths(prog, fr):
         for tm in p.all_terms():
             for x in T.walk(tm):
                 if x[0] == "call" and x[1][0] == "attr" and x[1][2] == "replace" and len(x[2]) == 2 and x[2][1] == ("const", "") and T.contains(x[2][0], lambda y: y[0] == "fmt" or y == ("const", ".")):
@@ -251,7 +251,7 @@ def r11_7(prog: Program, rep: Report, rule="R11.7"):
         return lits == "MODULE." and len(items) == 1 + len("MODULE.")
 
     everywhere = first_only = False
-    for p in P.paths_of(prog, fr):
+    for p in P.spaths(prog, fr):
         for tm in p.all_terms():
             for x in T.walk(tm):
                 if boundary_sub(x):
@@ -271,13 +271,13 @@ def r11_7(prog: Program, rep: Report, rule="R11.7"):
         mp = ("param", rm.params[1])
         none_given = ("cmp", "is", mp, ("const", None))
         overridden = []
-        for p, r in P.returns(P.paths_of(prog, rm)):
+        for p, r in P.returns(P.spaths(prog, rm)):
             if r == mp:
                 continue
             if not any(g == none_given and pol for g, pol in p.guards()):
                 overridden.append(T.show(r)[:60])
         rep.check(not overridden, rule, rm.qualname, rm.loc, "an explicitly named module is what the resolver answers", f"_resolve_module_name can answer {overridden[0] if overridden else ''} although the caller named the module: a reference such as 'typing.Optional[Node]' declared in module m is then evaluated in `typing`, where Node does not exist (NameError), instead of in m", detail="explicit-module-wins")
-    for p, r in P.returns(P.paths_of(prog, fr)):
+    for p, r in P.returns(P.spaths(prog, fr)):
         if not T.is_call_to(r, "typing.ForwardRef"):
             continue
         nonstr = any((not pol) and T.is_call_to(g, "builtins.isinstance") and g[2] == (ref, ("ref", "builtins.str")) for g, pol in p.guards()) or any(pol and g[0] == "not" for g, pol in p.guards())
@@ -301,6 +301,15 @@ def r11_7(prog: Program, rep: Report, rule="R11.7"):
             marg = mod[2][1] if len(mod[2]) > 1 else dict(mod[3]).get("module")
             own = marg is not None and T.contains(marg, lambda s: T.is_call_to(s, "builtins.getattr") and s[2][:2] == (ref, ("const", "__module__"))) and not T.contains(marg, lambda s: T.is_call_to(s, f"{C.INSP}.resolve_supertype", f"{C.INSP}.unwrap"))
             caller_first = marg is not None and marg[0] == "boolop" and marg[1] == "or" and marg[2][0] == ("param", "module")
+            # the statement form: `if not module: module = getattr(ref, "__module__", None)`
+            mp = ("param", "module")
+            atoms_ = T.derive_atoms(p.guards())
+            none_given = any((a == mp and not val) or (a == ("not", mp) and val) or (a[0] == "cmp" and a[1] == "is" and mp in a[2:4] and ("const", None) in a[2:4] and val) for a, val in atoms_)
+            given = any((a == mp and val) or (a == ("not", mp) and not val) or (a[0] == "cmp" and a[1] == "is" and mp in a[2:4] and ("const", None) in a[2:4] and not val) for a, val in atoms_)
+            if own and none_given and not T.contains(marg, lambda s: s == mp):
+                caller_first = True
+            if marg == mp and given:
+                continue  # (the other half of the statement form: the caller's module is used where one was given)
             if own and caller_first:
                 ok_module = True
             elif own:
@@ -327,7 +336,7 @@ def r11_7(prog: Program, rep: Report, rule="R11.7"):
     rm = prog.function("typelib.py.refs._resolve_module_name")
     rp = ("param", rm.params[0])
     first = last = False
-    for p in P.paths_of(prog, rm):
+    for p in P.spaths(prog, rm):
         for tm in p.all_terms():
             for s in T.walk(tm):
                 if s[0] == "sub" and s[1][0] == "call" and s[1][1][0] == "attr" and s[1][1][1] == rp and s[1][2][:1] == (("const", "."),):
@@ -343,7 +352,7 @@ def r11_7(prog: Program, rep: Report, rule="R11.7"):
                         first = True
     # ... and only when that text *is a name*: the first dot of 'list[decimal.Decimal]' or 'int | mod.X' is not a qualifier's
     head = lambda s: s[0] == "sub" and s[1][0] == "call" and s[1][1][0] == "attr" and s[1][1][1] == rp and s[1][1][2] in ("split", "partition") and s[2] == ("const", 0)  # noqa: E731
-    text_exits = [p for p, r in P.returns(P.paths_of(prog, rm)) if head(r)]
+    text_exits = [p for p, r in P.returns(P.spaths(prog, rm)) if head(r)]
     named = bool(text_exits) and all(any(pol and T.contains(g, lambda x: x[0] == "call" and x[1][0] == "attr" and x[1][2] in ("isidentifier", "fullmatch", "match") and (head(x[1][1]) or any(head(a) for a in x[2]))) for g, pol in p.guards()) for p in text_exits)
     if text_exits:
         rep.check(named, rule, rm.qualname, rm.loc, "the text before the first dot is taken for the module only when it is an identifier", "the text before the first dot of a reference string is taken for its module whatever it is: for 'list[decimal.Decimal]' (or 'int | mod.X', 'Optional[mod.X]') the \"module\" is 'list[decimal', the rest 'Decimal]' is not an expression -- SyntaxError", detail="qualifier-is-a-name")
@@ -383,9 +392,12 @@ def r11_8(prog: Program, rep: Report, rule="R11.8"):
     ann = ("param", af.params[0])
     # raw string members (a builtin generic keeps them: list['Node']) are references too -- except in a Literal
     str_members = lit_excluded = lit_leak = False
-    for p in P.paths_of(prog, af):
+    for p in P.spaths(prog, af):
         if not any(g == ("param", "evaluate") and pol for g, pol in p.guards()):
             continue
+        # (the statement form, possibly in a helper of its own: `if isinstance(arg, str): return refs.forwardref(arg)`)
+        if any(pol and T.is_call_to(g, "builtins.isinstance") and len(g[2]) == 2 and T.refname(g[2][1]) == "builtins.str" for g, pol in p.guards()) and any(T.contains(tm, lambda y: T.is_call_to(y, "typelib.py.refs.forwardref")) for tm in p.all_terms()):
+            str_members = True
         for tm in p.all_terms():
             for x in T.walk(tm):
                 if x[0] == "ifexp" and T.is_call_to(x[1], "builtins.isinstance") and T.refname(x[1][2][1]) == "builtins.str" and T.is_call_to(x[2], "typelib.py.refs.forwardref"):
@@ -423,7 +435,7 @@ def r11_8(prog: Program, rep: Report, rule="R11.8"):
     if n_ctor:
         rep.check(not raw_ctor, rule, "typelib.routines", "", f"{n_ctor} member look-ups of routine constructors use inspection.args(t, evaluate=True)", f"{sorted(set(raw_ctor))[:3]} take(s) the members from inspection.args without evaluate=True: a string member (Union['Node', int], list['Node']) is looked up in the context as the reference, while the graph registered the evaluated class -- KeyError: ForwardRef('Node') when the routine is built", detail="ctor-args-evaluated")
     okargs = okeval = False
-    for p, r in P.returns(P.paths_of(prog, af)):
+    for p, r in P.returns(P.spaths(prog, af)):
         if T.contains(r, lambda s: T.is_call_to(s, "typing.get_args") and s[2] == (ann,)):
             okargs = True
         evpol = [pol for g, pol in p.guards() if g == ("param", "evaluate")]
@@ -546,7 +558,7 @@ def class_name_not_stripped(prog: Program, rep: Report, rule: str):
     ref = ("param", fr.params[0])
     edits = lambda y: (y[0] == "call" and ((T.refname(y[1]) or "").startswith("re.") or (y[1][0] == "attr" and y[1][2] in ("replace", "removeprefix", "split", "partition", "rpartition", "lstrip", "strip"))))  # noqa: E731
     n, bad = 0, []
-    for p, r in P.returns(P.paths_of(prog, fr)):
+    for p, r in P.returns(P.spaths(prog, fr)):
         if not (r[0] == "call" and T.refname(r[1]) in ("typing.ForwardRef", "typelib.py.refs.ForwardRef") and r[2]):
             continue
         atoms = T.derive_atoms(p.guards())
